@@ -46,6 +46,13 @@ def run(ctx):
             evs.append({"ev": "unlocked", "sid": 0, "during": "process crashed: " + txt[-800:], "held": False, "overlap": False})
         else:
             raise vlib.Inconclusive("concurrent ui harness failed:\n" + txt[-2500:])
+    # the first thing a process does: a page of embedded notes, built side by side, nothing rendered before (a process of its own)
+    for attempt in range(4):
+        fevs, frc, ftxt = run_harness(ctx, "ui", "TestVerifFirstRender", {}, race=True, timeout=900, allow_fail=True, name="first-render-%d" % attempt)
+        races += race_reports(ftxt)
+        if frc != 0 and not race_reports(ftxt):
+            raise vlib.Inconclusive("first-render harness failed:\n" + ftxt[-2000:])
+        evs += [e for e in fevs if e["ev"] == "liveness"]
     # fan-outs of pub under the race detector
     from checks import c09
     levs, lrc, ltxt = run_harness(ctx, "pub", "TestVerifListing", {"sessions": [], "random": 40 if q else 400, "outbox_classes": c09.OUTBOX, "reply_classes": c09.REPLIES},
